@@ -131,11 +131,12 @@ def check_property(pid: str, tier: str) -> int:
     with mp.get_context("fork").Pool(nproc) as pool:
         fa = pool.map_async(_verify_worker, [(f, timeout_ms, cross) for f in funcs], chunksize=1)
         la = pool.map_async(_lemma_worker, [(l, timeout_ms, cross) for l in lemmas], chunksize=1)
-        oracle = None
-        if P.get("oracle", True) and (HERE / "replay" / "run.py").exists():
-            oracle = run_oracle(pid, tier, seed)
         freps = fa.get()
         lres = la.get()
+    # the bounded stand-in runs after the solver pool (solver verdicts must not depend on machine load)
+    oracle = None
+    if P.get("oracle", True) and (HERE / "replay" / "run.py").exists():
+        oracle = run_oracle(pid, tier, seed)
 
     known = [k for k in load_known() if k.get("property") == pid and k.get("status") == "known"]
     lines, violations, undecided, errors, known_hit = [], [], [], [], []
